@@ -265,3 +265,447 @@ theorem asum_modify (n : Nat) (a : Array Nat) (u : Nat) (hu : u < n) (ha : a.siz
   simp at this
   simp only [asum, e]
   omega
+
+/-! ### one step of the traversal preserves the invariant -/
+
+theorem get_modify_inc (a : Array Nat) (u v n : Nat) (hu : u < n) (ha : a.size = n) :
+    (a.modify u (· + 1))[v]! = a[v]! + (if u = v then 1 else 0) := by
+  rw [modify_get!, ha]; simp only [hu, and_true]; split <;> simp
+
+theorem step_ready (G : PiDag) (s : RState) (q' : List Event) (t u : Nat) (hi : Inv G s)
+    (hu : u < G.T.size)
+    (hq : ∀ k v, qc s.queue k v = qc q' k v + (if EvKind.ready = k ∧ u = v then 1 else 0))
+    (hsub : ∀ e ∈ q', e.u < G.T.size) :
+    Inv G (processEvent G { s with queue := q' } ⟨t, .ready, u⟩) := by
+  simp only [processEvent, account]
+  constructor <;> simp only [Array.size_modify]
+  · exact hi.sz_rc
+  · exact hi.sz1
+  · exact hi.sz2
+  · exact hi.sz3
+  · exact hi.sz4
+  · intro e he
+    simp only [List.mem_append, List.mem_singleton] at he
+    rcases he with he | rfl
+    · exact hsub e he
+    · exact hu
+  · intro v hv
+    have := hi.pipe1 v hv; have := hq .start v
+    rw [get_modify_inc _ _ _ _ hu hi.sz1, qc_append, qc_single]
+    simp at *; omega
+  · intro v hv
+    have := hi.pipe2 v hv; have := hq .lastStart v
+    rw [qc_append, qc_single]; simp at *; omega
+  · intro v hv
+    have := hi.pipe3 v hv; have := hq .end_ v
+    rw [qc_append, qc_single]; simp at *; omega
+  · intro v hv
+    have := hi.enq v hv; have := hq .ready v
+    rw [get_modify_inc _ _ _ _ hu hi.sz1, qc_append, qc_single]
+    simp at *; omega
+  · exact hi.rc
+  · exact hi.run
+  · have := hi.rdy
+    rw [asum_modify _ _ _ hu hi.sz1]; simp at *; omega
+
+theorem step_start (G : PiDag) (s : RState) (q' : List Event) (t u : Nat) (hi : Inv G s)
+    (hu : u < G.T.size)
+    (hq : ∀ k v, qc s.queue k v = qc q' k v + (if EvKind.start = k ∧ u = v then 1 else 0))
+    (hsub : ∀ e ∈ q', e.u < G.T.size) :
+    Inv G (processEvent G { s with queue := q' } ⟨t, .start, u⟩) := by
+  simp only [processEvent, account]
+  constructor <;> simp only [Array.size_modify]
+  · exact hi.sz_rc
+  · exact hi.sz1
+  · exact hi.sz2
+  · exact hi.sz3
+  · exact hi.sz4
+  · intro e he
+    simp only [List.mem_append, List.mem_singleton] at he
+    rcases he with he | rfl
+    · exact hsub e he
+    · exact hu
+  · intro v hv
+    have := hi.pipe1 v hv; have := hq .start v
+    rw [get_modify_inc _ _ _ _ hu hi.sz2, qc_append, qc_single]
+    simp at *; omega
+  · intro v hv
+    have := hi.pipe2 v hv; have := hq .lastStart v
+    rw [get_modify_inc _ _ _ _ hu hi.sz2, qc_append, qc_single]; simp at *; omega
+  · intro v hv
+    have := hi.pipe3 v hv; have := hq .end_ v
+    rw [qc_append, qc_single]; simp at *; omega
+  · intro v hv
+    have := hi.enq v hv; have := hq .ready v
+    rw [qc_append, qc_single]
+    simp at *; omega
+  · exact hi.rc
+  · have := hi.run
+    rw [asum_modify _ _ _ hu hi.sz2]; simp at *; omega
+  · exact hi.rdy
+
+theorem step_lastStart (G : PiDag) (s : RState) (q' : List Event) (t u : Nat) (hi : Inv G s)
+    (hu : u < G.T.size)
+    (hq : ∀ k v, qc s.queue k v = qc q' k v + (if EvKind.lastStart = k ∧ u = v then 1 else 0))
+    (hsub : ∀ e ∈ q', e.u < G.T.size) :
+    Inv G (processEvent G { s with queue := q' } ⟨t, .lastStart, u⟩) := by
+  simp only [processEvent, account]
+  constructor <;> simp only [Array.size_modify]
+  · exact hi.sz_rc
+  · exact hi.sz1
+  · exact hi.sz2
+  · exact hi.sz3
+  · exact hi.sz4
+  · intro e he
+    simp only [List.mem_append, List.mem_singleton] at he
+    rcases he with he | rfl
+    · exact hsub e he
+    · exact hu
+  · intro v hv
+    have := hi.pipe1 v hv; have := hq .start v
+    rw [qc_append, qc_single]
+    simp at *; omega
+  · intro v hv
+    have := hi.pipe2 v hv; have := hq .lastStart v
+    rw [get_modify_inc _ _ _ _ hu hi.sz3, qc_append, qc_single]; simp at *; omega
+  · intro v hv
+    have := hi.pipe3 v hv; have := hq .end_ v
+    rw [get_modify_inc _ _ _ _ hu hi.sz3, qc_append, qc_single]; simp at *; omega
+  · intro v hv
+    have := hi.enq v hv; have := hq .ready v
+    rw [qc_append, qc_single]
+    simp at *; omega
+  · exact hi.rc
+  · exact hi.run
+  · have := hi.rdy
+    rw [asum_modify _ _ _ hu hi.sz3]; simp at *; omega
+
+theorem remaining_end (G : PiDag) (ended : Array Nat) (u v : Nat) (hu : u < G.T.size)
+    (hsz : ended.size = G.T.size) (h0 : ended[u]! = 0) :
+    remaining G (ended.modify u (· + 1)) v + cntV (outEdges G u) v = remaining G ended v := by
+  have e : (fun w => if (ended.modify u (· + 1))[w]! = 0 then cntV (outEdges G w) v else 0) =
+      fun w => if u = w then 0 else (if ended[w]! = 0 then cntV (outEdges G w) v else 0) := by
+    funext w
+    rw [get_modify_inc _ _ _ _ hu hsz]
+    by_cases h : u = w
+    · subst h; simp
+    · simp [h]
+  have := rsum_update G.T.size u hu
+    (fun w => if ended[w]! = 0 then cntV (outEdges G w) v else 0)
+    (fun w => if u = w then 0 else (if ended[w]! = 0 then cntV (outEdges G w) v else 0))
+    (by intro x _ hx
+        have hxu : ¬ u = x := fun e => hx e.symm
+        simp [hxu])
+  simp [h0] at this
+  simp only [remaining, e]
+  omega
+
+theorem term_le_remaining (G : PiDag) (ended : Array Nat) (u v : Nat) (hu : u < G.T.size) (h0 : ended[u]! = 0) :
+    cntV (outEdges G u) v ≤ remaining G ended v := by
+  have := rsum_term_le G.T.size u hu (fun w => if ended[w]! = 0 then cntV (outEdges G w) v else 0)
+  simpa [h0, remaining] using this
+
+theorem enqOf_end (G : PiDag) (rank : Nat → Option Nat) (hc : Cert G rank) (ended : Array Nat)
+    (u v : Nat) (hu : u < G.T.size) (hv : v < G.T.size) (hsz : ended.size = G.T.size) (h0 : ended[u]! = 0) :
+    enqOf G (ended.modify u (· + 1)) v = enqOf G ended v +
+      (if 0 < cntV (outEdges G u) v ∧ remaining G ended v = cntV (outEdges G u) v then 1 else 0) := by
+  have hrem := remaining_end G ended u v hu hsz h0
+  have hle := term_le_remaining G ended u v hu h0
+  have hdeg : cntV (outEdges G u) v ≤ (indegrees G)[v]! := by
+    rw [hc.degrees v hv]
+    exact rsum_term_le G.T.size u hu (fun w => cntV (outEdges G w) v)
+  unfold enqOf
+  by_cases hfl : v = firstLeaf G
+  · subst hfl
+    have := hc.indeg_fl
+    simp; omega
+  · simp only [hfl, if_false]
+    by_cases hc0 : cntV (outEdges G u) v = 0
+    · have : remaining G (ended.modify u (· + 1)) v = remaining G ended v := by omega
+      simp [hc0, this]
+    · have h1 : 0 < (indegrees G)[v]! := by omega
+      have h2 : ¬ remaining G ended v = 0 := by omega
+      simp only [h1, true_and, h2, if_false, Nat.zero_add]
+      have : 0 < cntV (outEdges G u) v := by omega
+      simp only [this, true_and]
+      by_cases h3 : remaining G ended v = cntV (outEdges G u) v
+      · have : remaining G (ended.modify u (· + 1)) v = 0 := by omega
+        simp [this, h3]
+      · have : ¬ remaining G (ended.modify u (· + 1)) v = 0 := by omega
+        simp [this, h3]
+
+theorem step_end (G : PiDag) (rank : Nat → Option Nat) (hc : Cert G rank) (s : RState) (q' : List Event)
+    (t u : Nat) (hi : Inv G s) (hu : u < G.T.size)
+    (hq : ∀ k v, qc s.queue k v = qc q' k v + (if EvKind.end_ = k ∧ u = v then 1 else 0))
+    (hsub : ∀ e ∈ q', e.u < G.T.size) :
+    Inv G (processEvent G { s with queue := q' } ⟨t, .end_, u⟩) := by
+  have h0 : s.ended[u]! = 0 := by
+    have := hi.pipe3 u hu; have := hq .end_ u; have := (hi.le_one u hu).2.2.1
+    simp at *; omega
+  obtain ⟨rc, new, heq, hsz, hrc, hnew, hcnt⟩ := releaseEdges_spec (G.T[u]!.info.c.end_.t) (outEdges G u)
+    { s with queue := q' } (fun v => remaining G s.ended v)
+    (by intro e he
+        obtain ⟨a, b, _, hb, _⟩ := hc.forward u hu e he
+        have := (hc.ranked_leaf e.v (by simp [hb])).1
+        simpa [hi.sz_rc] using this)
+    (by intro v hv; exact hi.rc v (by simpa [hi.sz_rc] using hv))
+    (fun v => term_le_remaining G s.ended u v hu h0)
+  simp only [processEvent, heq, account]
+  have hall : ∀ e ∈ new, e.kind = .ready := fun e he => (hnew e he).1
+  constructor <;> simp only [Array.size_modify]
+  · simpa [hi.sz_rc] using hsz
+  · exact hi.sz1
+  · exact hi.sz2
+  · exact hi.sz3
+  · exact hi.sz4
+  · intro e he
+    simp only [List.mem_append] at he
+    rcases he with he | he
+    · exact hsub e he
+    · have := (hnew e he).2; simpa [hi.sz_rc] using this
+  · intro v hv
+    have := hi.pipe1 v hv; have := hq .start v; have := (qc_ready_of_all_ready new hall v).2.1
+    rw [qc_append]; simp at *; omega
+  · intro v hv
+    have := hi.pipe2 v hv; have := hq .lastStart v; have := (qc_ready_of_all_ready new hall v).2.2.1
+    rw [qc_append]; simp at *; omega
+  · intro v hv
+    have := hi.pipe3 v hv; have := hq .end_ v; have := (qc_ready_of_all_ready new hall v).2.2.2
+    rw [get_modify_inc _ _ _ _ hu hi.sz4, qc_append]; simp at *; omega
+  · intro v hv
+    have h1 := hi.enq v hv; have h2 := hq .ready v; have h3 := (qc_ready_of_all_ready new hall v).1
+    have h4 := hcnt v
+    have h5 := enqOf_end G rank hc s.ended u v hu hv hi.sz4 h0
+    rw [qc_append, h3, h4, h5]
+    simp at h2
+    omega
+  · intro v hv
+    have := hrc v (by simpa [hi.sz_rc] using hv)
+    have h2 := remaining_end G s.ended u v hu hi.sz4 h0
+    rw [this]
+    have : remaining G s.ended v - cntV (outEdges G u) v = remaining G (s.ended.modify u (· + 1)) v := by omega
+    simp only [this]
+  · have := hi.run
+    rw [asum_modify _ _ _ hu hi.sz4]; simp at *; omega
+  · exact hi.rdy
+
+theorem step_inv (G : PiDag) (rank : Nat → Option Nat) (hc : Cert G rank) (s : RState) (hi : Inv G s)
+    (k : Nat) (hk : k < s.queue.length) :
+    Inv G (processEvent G { s with queue := s.queue.eraseIdx k } s.queue[k]) := by
+  have hu : s.queue[k].u < G.T.size := hi.qlt _ (List.getElem_mem hk)
+  have hsub : ∀ e ∈ s.queue.eraseIdx k, e.u < G.T.size := fun e he => hi.qlt e (List.mem_of_mem_eraseIdx he)
+  have hq := fun k' v => qc_eraseIdx s.queue k hk k' v
+  rcases hev : s.queue[k] with ⟨t, kind, u⟩
+  rw [hev] at hu hq
+  simp only at hu hq
+  cases kind
+  · exact step_ready G s _ t u hi hu hq hsub
+  · exact step_start G s _ t u hi hu hq hsub
+  · exact step_lastStart G s _ t u hi hu hq hsub
+  · exact step_end G rank hc s _ t u hi hu hq hsub
+
+/-! ### termination -/
+
+/-- number of events processed so far -/
+def doneCount (n : Nat) (s : RState) : Nat :=
+  asum n s.readied + asum n s.started + asum n s.lastStarted + asum n s.ended
+
+theorem rsum_le (n : Nat) (f : Nat → Nat) (h : ∀ u < n, f u ≤ 1) : rsum n f ≤ n := by
+  induction n with
+  | zero => simp [rsum]
+  | succ n ih =>
+    rw [rsum_succ]
+    have := ih (fun u hu => h u (by omega)); have := h n (by omega); omega
+
+theorem Inv.done_le {G : PiDag} {s : RState} (h : Inv G s) : doneCount G.T.size s ≤ 4 * G.T.size := by
+  have h1 := rsum_le G.T.size (fun v => s.readied[v]!) (fun u hu => (h.le_one u hu).1)
+  have h2 := rsum_le G.T.size (fun v => s.started[v]!) (fun u hu => (h.le_one u hu).2.1)
+  have h3 := rsum_le G.T.size (fun v => s.lastStarted[v]!) (fun u hu => (h.le_one u hu).2.2.1)
+  have h4 := rsum_le G.T.size (fun v => s.ended[v]!) (fun u hu => (h.le_one u hu).2.2.2)
+  simp only [doneCount, asum]; omega
+
+theorem releaseEdges_arrays (tEnd : Nat) : ∀ (L : List PEdge) (s : RState),
+    (releaseEdges tEnd L s).readied = s.readied ∧ (releaseEdges tEnd L s).started = s.started ∧
+    (releaseEdges tEnd L s).lastStarted = s.lastStarted ∧ (releaseEdges tEnd L s).ended = s.ended := by
+  intro L
+  induction L with
+  | nil => intro s; simp [releaseEdges]
+  | cons e es ih =>
+    intro s
+    simp only [releaseEdges]
+    split <;> (rw [(ih _).1, (ih _).2.1, (ih _).2.2.1, (ih _).2.2.2]; simp)
+
+theorem step_done (G : PiDag) (s : RState) (hi : Inv G s) (q' : List Event) (ev : Event) (hu : ev.u < G.T.size) :
+    doneCount G.T.size (processEvent G { s with queue := q' } ev) = doneCount G.T.size s + 1 := by
+  obtain ⟨t, kind, u⟩ := ev
+  simp only at hu
+  cases kind <;> simp only [processEvent, account, doneCount]
+  · rw [asum_modify _ _ _ hu hi.sz1]; omega
+  · rw [asum_modify _ _ _ hu hi.sz2]; omega
+  · rw [asum_modify _ _ _ hu hi.sz3]; omega
+  · have := releaseEdges_arrays (G.T[u]!.info.c.end_.t) (outEdges G u) { s with queue := q' }
+    rw [this.1, this.2.1, this.2.2.1, this.2.2.2]
+    simp only
+    rw [asum_modify _ _ _ hu hi.sz4]; omega
+
+theorem replay_terminates (pick : List Event → Nat) (G : PiDag) (rank : Nat → Option Nat) (hc : Cert G rank) :
+    ∀ (fuel : Nat) (s : RState), Inv G s → 4 * G.T.size < doneCount G.T.size s + fuel →
+      (replayWith pick G fuel s).queue = [] ∧ Inv G (replayWith pick G fuel s) := by
+  intro fuel
+  induction fuel with
+  | zero => intro s hi hlt; have := hi.done_le; omega
+  | succ fuel ih =>
+    intro s hi hlt
+    unfold replayWith
+    split
+    · rename_i hq; exact ⟨hq, hi⟩
+    · rename_i a q hq
+      have hpos : 0 < (a :: q).length := by simp
+      have hk : pick (a :: q) % (a :: q).length < s.queue.length := by
+        rw [hq]; exact Nat.mod_lt _ hpos
+      have hget : (a :: q)[pick (a :: q) % (a :: q).length]! = s.queue[pick (a :: q) % (a :: q).length] := by
+        simp only [hq]
+        rw [getElem!_pos (a :: q) _ (Nat.mod_lt _ hpos)]
+      dsimp only
+      rw [hget]
+      have hinv := step_inv G rank hc s hi _ hk
+      have hdone := step_done G s hi (s.queue.eraseIdx (pick (a :: q) % (a :: q).length))
+        s.queue[pick (a :: q) % (a :: q).length] (hi.qlt _ (List.getElem_mem hk))
+      have : (a :: q).eraseIdx (pick (a :: q) % (a :: q).length) = s.queue.eraseIdx (pick (a :: q) % (a :: q).length) := by
+        rw [hq]
+      rw [this]
+      exact ih _ hinv (by omega)
+
+/-! ### the initial state and the final verdict -/
+
+theorem replicate_get! (n v : Nat) : (Array.replicate n (0 : Nat))[v]! = 0 := by
+  by_cases h : v < n
+  · simp [h]
+  · have : (Array.replicate n (0 : Nat))[v]! = default := by apply getElem!_neg; simpa using h
+    rw [this]; rfl
+
+theorem remaining_zero (G : PiDag) (rank : Nat → Option Nat) (hc : Cert G rank) (v : Nat) (hv : v < G.T.size) :
+    remaining G (Array.replicate G.T.size 0) v = (indegrees G)[v]! := by
+  rw [hc.degrees v hv]
+  simp [remaining, replicate_get!]
+
+theorem asum_zero (n : Nat) : asum n (Array.replicate n 0) = 0 := by
+  simp only [asum]; exact rsum_eq_zero n _ (fun u _ => replicate_get! n u)
+
+theorem inv_init (G : PiDag) (rank : Nat → Option Nat) (hc : Cert G rank) : Inv G (initReplay G) := by
+  constructor <;> simp only [initReplay]
+  · simp [hc.indeg_size]
+  · simp
+  · simp
+  · simp
+  · simp
+  · intro e he; simp at he; subst he; exact hc.fl_lt
+  · intro v _; simp [replicate_get!, qc_single]
+  · intro v _; simp [replicate_get!, qc_single]
+  · intro v _; simp [replicate_get!, qc_single]
+  · intro v hv
+    rw [replicate_get!, qc_single]
+    unfold enqOf
+    rw [remaining_zero G rank hc v hv]
+    by_cases h : v = firstLeaf G
+    · subst h; simp
+    · have h' : ¬ firstLeaf G = v := fun e => h e.symm
+      simp [h, h']; omega
+  · intro v hv
+    rw [remaining_zero G rank hc v hv]
+    have hsz : v < (indegrees G).size := by rw [hc.indeg_size]; exact hv
+    have h1 : ((indegrees G).map Int.ofNat)[v]! = Int.ofNat (indegrees G)[v] := by
+      rw [getElem!_pos _ v (by simpa using hsz)]; simp
+    rw [h1, getElem!_pos _ v hsz]; rfl
+  · simp [asum_zero]
+  · simp [asum_zero]
+
+theorem cntV_pos {L : List PEdge} {v : Nat} (h : 0 < cntV L v) : ∃ e ∈ L, e.v = v := by
+  have := List.countP_pos_iff.mp h
+  obtain ⟨e, he, hp⟩ := this
+  exact ⟨e, he, by simpa using hp⟩
+
+theorem final_of_inv (G : PiDag) (rank : Nat → Option Nat) (hc : Cert G rank) (r : RState)
+    (hq : r.queue = []) (hi : Inv G r) :
+    r.queue = [] ∧
+    (∀ i, i < G.T.size → r.readied[i]! = (if isLeaf G.T[i]! then 1 else 0) ∧
+      r.started[i]! = (if isLeaf G.T[i]! then 1 else 0) ∧
+      r.lastStarted[i]! = (if isLeaf G.T[i]! then 1 else 0) ∧
+      r.ended[i]! = (if isLeaf G.T[i]! then 1 else 0)) ∧
+    r.nRunning = 0 ∧ r.nReady = 0 := by
+  -- with an empty queue all four counters of a node equal the number of ready events it was given
+  have hall : ∀ v, v < G.T.size → r.readied[v]! = enqOf G r.ended v ∧ r.started[v]! = enqOf G r.ended v ∧
+      r.lastStarted[v]! = enqOf G r.ended v ∧ r.ended[v]! = enqOf G r.ended v := by
+    intro v hv
+    have h1 := hi.pipe1 v hv; have h2 := hi.pipe2 v hv; have h3 := hi.pipe3 v hv; have h4 := hi.enq v hv
+    have hq' : r.queue = [] := hq
+    rw [hq'] at h1 h2 h3 h4
+    simp [qc] at h1 h2 h3 h4
+    omega
+  -- every ranked node has ended (induction along the topological order)
+  have hranked : ∀ b v, v < G.T.size → rank v = some b → r.ended[v]! = 1 := by
+    intro b
+    induction b using Nat.strongRecOn with
+    | _ b ih =>
+      intro v hv hr
+      rw [(hall v hv).2.2.2]
+      unfold enqOf
+      by_cases hfl : v = firstLeaf G
+      · simp [hfl]
+      · have hleaf := (hc.ranked_leaf v (by simp [hr])).2
+        have hdeg := hc.indeg_leaf v hv hleaf hfl
+        have hrem : remaining G r.ended v = 0 := by
+          apply rsum_eq_zero
+          intro u hu
+          by_cases he : r.ended[u]! = 0
+          · simp only [he, if_true]
+            by_cases hcnt : cntV (outEdges G u) v = 0
+            · exact hcnt
+            · obtain ⟨e, hmem, hev⟩ := cntV_pos (Nat.pos_of_ne_zero hcnt)
+              obtain ⟨a, b', ha, hb', hab⟩ := hc.forward u hu e hmem
+              rw [hev, hr] at hb'
+              cases hb'
+              have := ih a hab u hu ha
+              omega
+          · simp [he]
+        simp [hfl, hdeg, hrem]
+  have hfinal : ∀ i, i < G.T.size → enqOf G r.ended i = (if isLeaf G.T[i]! then 1 else 0) := by
+    intro i hi'
+    cases hl : isLeaf G.T[i]!
+    · have := hc.indeg_inner i hi' hl
+      have hne : i ≠ firstLeaf G := by
+        intro e; rw [e, hc.fl_leaf] at hl; cases hl
+      simp [enqOf, hne, this]
+    · obtain ⟨b, hb⟩ := Option.isSome_iff_exists.mp (hc.leaf_ranked i hi' hl)
+      have := hranked b i hi' hb
+      rw [(hall i hi').2.2.2] at this
+      simp [this]
+  refine ⟨hq, ?_, ?_, ?_⟩
+  · intro i hi'
+    have := hall i hi'; have := hfinal i hi'
+    omega
+  · have := hi.run
+    have e : asum G.T.size r.started = asum G.T.size r.ended :=
+      rsum_congr _ _ _ (fun v hv => by have := hall v hv; omega)
+    rw [this, e]; omega
+  · have := hi.rdy
+    have e : asum G.T.size r.readied = asum G.T.size r.lastStarted :=
+      rsum_congr _ _ _ (fun v hv => by have := hall v hv; omega)
+    rw [this, e]; omega
+
+/-- **the traversal of a certified DAG**: whatever event is dequeued next, the traversal ends with an
+    empty queue, every leaf has been made ready, started, last-started and ended exactly once, no
+    other node has been touched, and nothing is running or ready. -/
+theorem replay_final (pick : List Event → Nat) (G : PiDag) (rank : Nat → Option Nat) (hc : Cert G rank) :
+    (replayWith pick G (4 * G.T.size + 4) (initReplay G)).queue = [] ∧
+    (∀ i, i < G.T.size →
+      (replayWith pick G (4 * G.T.size + 4) (initReplay G)).readied[i]! = (if isLeaf G.T[i]! then 1 else 0) ∧
+      (replayWith pick G (4 * G.T.size + 4) (initReplay G)).started[i]! = (if isLeaf G.T[i]! then 1 else 0) ∧
+      (replayWith pick G (4 * G.T.size + 4) (initReplay G)).lastStarted[i]! = (if isLeaf G.T[i]! then 1 else 0) ∧
+      (replayWith pick G (4 * G.T.size + 4) (initReplay G)).ended[i]! = (if isLeaf G.T[i]! then 1 else 0)) ∧
+    (replayWith pick G (4 * G.T.size + 4) (initReplay G)).nRunning = 0 ∧
+    (replayWith pick G (4 * G.T.size + 4) (initReplay G)).nReady = 0 := by
+  obtain ⟨hq, hi⟩ := replay_terminates pick G rank hc (4 * G.T.size + 4) (initReplay G) (inv_init G rank hc) (by omega)
+  exact final_of_inv G rank hc _ hq hi
+
+end MythVerif.PiDag
